@@ -471,7 +471,7 @@ def dynamics_spec(rng, ctx, *, sl_bias=0.35, schedule=True, kind=None, same_solv
         redeclare = rng.random() < 0.15
     if redeclare:
         inject_redeclare(rng, spec, ops)
-    if rng.random() < 0.15:
+    if rng.random() < 0.25:
         inject_reunit(rng, spec, ops)
     return spec
 
@@ -492,12 +492,12 @@ def inject_reunit(rng, spec, ops, k=None):
     runs = [i for i, op in enumerate(ops) if op['op'] == 'run']
     if not runs:
         return
-    at = rng.choice(runs)
+    at = runs[-1] if rng.random() < 0.6 else rng.choice(runs)      # mostly between two runs: caches are warm by then
     # a later re-declaration compares modules / helix angles of the pair for equality: a there-and-back conversion
     # moves them by an ulp, so these are left alone in schedules that re-declare a relation
     later_decl = any(op['op'] == 'redeclare' for op in ops)
     for _ in range(k or rng.randint(1, 3)):
-        oi = rng.randrange(len(spec['elems']) + 1)
+        oi = 0 if rng.random() < 0.4 else rng.randrange(len(spec['elems']) + 1)
         ty = 'motor' if oi == 0 else spec['elems'][oi - 1]['type']
         cands = [(a, kd) for a, kd in REUNIT[ty] if not (later_decl and a in ('module', 'helix_angle'))]
         attr, kind = rng.choice(cands)
@@ -670,6 +670,17 @@ def run_dynamics(ctx, props, sl_bias=0.35, quick=120, thorough=8000):
         done += len(specs)
     # relations re-declared (joint -> mating, or another efficiency) after the Powertrain and the Solver were built
     specs = [dynamics_spec(ctx.rng, ctx, sl_bias=sl_bias, redeclare=True) for _ in range(ctx.budget(20, 400))]
+    eval_dynamics(ctx, specs, props)
+    # an uncontrolled motor (its duty cycle is never assigned again) whose parameter objects are re-expressed in place
+    # between a run and its continuation
+    specs = []
+    for _ in range(ctx.budget(12, 200)):
+        spec = dynamics_spec(ctx.rng, ctx, sl_bias=sl_bias, kind='split', redeclare=False)
+        spec['rules'] = None
+        spec['ops'] = [op for op in spec['ops'] if op['op'] == 'run']
+        for attr, kind in ctx.rng.sample(REUNIT['motor'][1:], 2):
+            spec['ops'].insert(1, {'op': 'reunit', 'obj': 0, 'attr': attr, 'unit': ctx.rng.choice(list(SI[kind].keys()))})
+        specs.append(spec)
     eval_dynamics(ctx, specs, props)
     # long runs (thorough: many, quick: a few): oracles on every instant, model in lock-step on sampled instants
     nlong = ctx.budget(6, 400) * ctx.boost
